@@ -53,3 +53,75 @@ def run(ctx, config="all"):
     rep.analysed = {"build_config": config, "function_configuration_pairs": n}
     rep.floor("function_configuration_pairs", n, len(COUNTERS) * len(ctx.cfgs()))
     return rep
+
+
+KERNEL_RETURNS = {
+    # kernel -> values some input makes it return (by its documented contract)
+    "crate::algorithms::mul::addmul": (0, 1),            # overflow flag: false and true
+    "crate::algorithms::mul::add_nx1": (0, 1),           # carry word
+    "crate::algorithms::mul::mul_nx1": (0, 1),
+    "crate::algorithms::mul::addmul_nx1": (0, 1),
+    "crate::algorithms::mul::submul_nx1": (0, 1),
+    "crate::algorithms::add::adc_n": (0, 1),
+    "crate::algorithms::add::sbb_n": (0, 1),
+    "crate::algorithms::shift::shift_left_small": (0, 1),
+    "crate::algorithms::shift::shift_right_small": (0, 1 << 63),
+}
+
+
+def kernels(ctx, config="all"):
+    """R-EXTREMES for the limb kernels (C15): the carry / borrow / overflow value a kernel returns can be zero and can be
+    non-zero; `cmp` can return each of Less, Equal, Greater.  Same argument as for the counting functions: the
+    interval interpretation over-approximates the return values, so a required value outside it cannot be returned."""
+    rep = Report("R-EXTREMES/kernels", "each carry- / borrow- / overflow-returning limb kernel can return zero and a non-zero "
+                 "value, and cmp can return Less, Equal and Greater (the interval / discriminant over-approximation of "
+                 "the return value contains them)")
+    prog = ctx.prog(config)
+    T = total_rule.totality(ctx, config)
+    n = 0
+    for k, wants in sorted(KERNEL_RETURNS.items()):
+        b = prog.bodies.get(k)
+        nm = k.split("::")[-1]
+        if b is None:
+            rep.violation("missing:" + nm, "src/algorithms", "%s not found" % k)
+            continue
+        where = "%s:%s" % (b["file"], b["line"])
+        iv = T.ai(k, None).return_interval()
+        n += 1
+        miss = [w for w in wants if iv is not None and not (iv[0] <= w <= iv[1])]
+        if miss:
+            rep.violation(nm + "|extreme", where, "%s can only return values in [%d, %d], but its contract requires %s for some "
+                          "input" % (nm, iv[0], iv[1], miss[0]))
+        else:
+            rep.ok(nm + "|extreme", where, "return interval %s contains %s" % (iv, list(wants)))
+    k = "crate::algorithms::cmp"
+    b = prog.bodies.get(k)
+    if b is None:
+        rep.violation("missing:cmp", "src/algorithms/mod.rs", "algorithms::cmp not found")
+    else:
+        a = T.ai(k, None)
+        n += 1
+        ds = set()
+        for rb in a.v.return_blocks():
+            st = a.state_before_term(rb)
+            if st is None:
+                continue
+            iv = st.iv.get(("pl", 0, (("discr",),)))
+            if iv is None or iv[1] - iv[0] > 4:
+                ds = None
+                break
+            ds |= set(range(iv[0], iv[1] + 1))
+        where = "%s:%s" % (b["file"], b["line"])
+        if ds is None:
+            rep.ok("cmp|extreme", where, "returned discriminants not enumerable: not decided")
+        else:
+            norm = {(-1 if d_ in (255, (1 << 64) - 1, -1) else d_) for d_ in ds}
+            missing = [nm_ for v_, nm_ in ((-1, "Less"), (0, "Equal"), (1, "Greater")) if v_ not in norm]
+            if missing:
+                rep.violation("cmp|extreme", where, "algorithms::cmp can never return %s (returned discriminants: %s)" % (
+                    ", ".join(missing), sorted(norm)))
+            else:
+                rep.ok("cmp|extreme", where, "can return Less, Equal and Greater")
+    rep.analysed = {"build_config": config, "kernels": n}
+    rep.floor("kernels", n, len(KERNEL_RETURNS) + 1)
+    return rep
